@@ -195,12 +195,15 @@ def run_C15(ctx, R):
     _scoped(ctx, R, bnd3.bnd3_pointer, C15_ENTRIES, 30)
     _scoped(ctx, R, utilsx.esc1, C15_ENTRIES, 1)
     _per_config(ctx, R, utilsx.esc3)
+    _per_config(ctx, R, _inl(utilsx.ptr1))
 
 
 def run_C16(ctx, R):
     from .rules import tab, lst, out, utilsx
     _scoped(ctx, R, utilsx.tab18, C16_ENTRIES, 3)
     _per_config(ctx, R, _inl(utilsx.numu))
+    from .rules import numcls as _numcls
+    _per_config(ctx, R, lambda units, r: _numcls.num4(units, r, unit_names=('cJSON_Utils.c',)))
     _scoped(ctx, R, utilsx.ord1, C16_ENTRIES, 3)
     _per_config(ctx, R, _own_utils({'apply_patch', 'detach_path', 'cJSONUtils_ApplyPatches', 'cJSONUtils_ApplyPatchesCaseSensitive'}))
     _per_config(ctx, R, tab.tab12)
@@ -230,6 +233,8 @@ def run_C17(ctx, R):
     from .rules import tab, lst, out, utilsx
     _per_config(ctx, R, lambda units, r: utilsx.inputs_only_relinked(units, r, roots=('create_patches',)))
     _per_config(ctx, R, _inl(utilsx.numu))
+    from .rules import numcls as _numcls
+    _per_config(ctx, R, lambda units, r: _numcls.num4(units, r, unit_names=('cJSON_Utils.c',)))
     _per_config(ctx, R, _own_utils({'create_patches', 'compose_patch', 'cJSONUtils_GeneratePatches', 'cJSONUtils_GeneratePatchesCaseSensitive'}))
     _scoped(ctx, R, tab.tab20, C17_ENTRIES, 0)
     from .rules import cmpfold
@@ -255,6 +260,8 @@ def run_C18(ctx, R):
     _per_config(ctx, R, _own_utils({'merge_patch', 'generate_merge_patch'}))
     _per_config(ctx, R, utilsx.mrg)
     _per_config(ctx, R, _inl(utilsx.numu))
+    from .rules import numcls as _numcls
+    _per_config(ctx, R, lambda units, r: _numcls.num4(units, r, unit_names=('cJSON_Utils.c',)))
     _scoped(ctx, R, tab.tab20, C18_ENTRIES, 0)
     _scoped(ctx, R, tab.tab11, C18_ENTRIES, 15)
     _scoped(ctx, R, lst.lst1, C18_ENTRIES, 3)
@@ -426,6 +433,8 @@ def run_C12(ctx, R):
                                                     'cJSON_IsRaw'}, 'TAB3', 4))
     _scoped(ctx, R, tab.tab11, {'cJSON_Compare'}, 4)
     _per_config(ctx, R, _only_functions(tree.lst4, {'cJSON_Compare'}, 'LST4', 1))
+    from .rules import numcls
+    _per_config(ctx, R, lambda units, r: numcls.num4(units, r, unit_names=('cJSON.c',)))
 
 
 PARSE_FNS = {'parse_value', 'parse_array', 'parse_object', 'parse_string', 'parse_number', 'cJSON_ParseWithLengthOpts',
@@ -461,6 +470,8 @@ def run_C04(ctx, R):
     _per_config(ctx, R, outbuf.prt1)
     from .rules import parse
     _per_config(ctx, R, _inl(parse.tab23))
+    from .rules import numcls
+    _per_config(ctx, R, lambda units, r: numcls.num4(units, r, unit_names=('cJSON.c',)))
 
 
 def run_C05(ctx, R):
@@ -552,8 +563,10 @@ PROPERTIES = {
             "the condition under which ensure()'s realloc branch and its allocate+memcpy(offset+1)+free branch preserve the "
             "same bytes (independence from realloc availability and from the initial buffer size). TAB2: print() returns "
             "blocks of the same size from both arms of its final shrink/copy. TAB23 (reading side): the literal the parser reads "
-            "back ends at the first quote that is not the second byte of an escape sequence, which is where the printer put it.",
-        'not_decided': ['numeric round trip: %1.15g / %1.17g, the DBL_MAX -> inf case named in the property, -0.0',
+            "back ends at the first quote that is not the second byte of an escape sequence, which is where the printer put it. NUM4: "
+            "compare_double, which print_number uses to decide whether 15 digits read back as the number printed, does not take an infinite "
+            "read-back for equal to a finite number (the DBL_MAX case named in the property).",
+        'not_decided': ['numeric round trip as a value: %1.15g / %1.17g, -0.0 (the DBL_MAX -> inf case named in the property was compare_double accepting an infinite read-back, NUM4)',
                         'fixed point of print(parse(.)) as a value', 'shape/order/keys preservation beyond the table agreement'],
     },
     'C05': {
@@ -715,9 +728,10 @@ PROPERTIES = {
             "edge returns false; strcmp is reached only after NULL tests of both payloads; the number comparison takes one "
             "operand from each argument. TAB3: the kind is compared and switched on under the 0xFF mask, all eight kinds are "
             "valid, the default arm refuses. TAB11: the case flag reaches get_object_item and both recursive calls unchanged. "
-            "LST4: NULL arguments refused before any dereference.",
-        'not_decided': ['numeric tolerance semantics (the infinite-operand defect named in the property is a value-level '
-                        'predicate of compare_double)', 'reflexivity/symmetry as such'],
+            "LST4: NULL arguments refused before any dereference. NUM4: compare_double evaluated in the class domain of doubles for every pair "
+            "of operand classes (NaN, +inf, -inf, positive, negative, zero): a NaN equals nothing, an infinite number equals neither a finite "
+            "one nor the other infinity, zero equals zero.",
+        'not_decided': ['the tolerance between two finite numbers as a value', 'reflexivity/symmetry as such'],
     },
     'C01': {
         'run': run_C01, 'modules': ['parse'],
@@ -831,10 +845,11 @@ PROPERTIES = {
             "the digit count agrees with the radix (no instance today; armed by a fixture). OUT5: the encoder's write cursor leaves no gap. "
             "ESC3: a byte of a member name is compared with a byte of a reference token directly (outside compare_pointers) only "
             "behind tests that the token byte is neither '~' nor '/' (no instance today; armed by a fixture). "
+            "PTR1: on every path of get_item_from_pointer that returns something other than the constant NULL the byte under the text "
+            "cursor is the terminator or the value returned is known to be NULL (text that does not begin with '/' designates nothing). "
             "Decides these clauses, not the resolution semantics as a whole.",
         'not_decided': ['RFC 6901 resolution as a function of (document, pointer): which node is returned',
-                        "the 'text not starting with / resolves to the root' defect named in the property (a missing "
-                        'comparison with no structural signature)', 'size_t overflow of the decoded index'],
+                        'size_t overflow of the decoded index'],
     },
     'C16': {
         'run': run_C16, 'modules': ['utils', 'own'],
